@@ -2528,14 +2528,23 @@ class MulIntegerExpr(MathIntegerExpr):
         self.divide = divide
 
     def get_literal_result(self):
-        total = self.children[0].get_literal_result()
+        total = int(self.children[0].get_literal_result())
         for operand, operator in itertools.islice(zip(self.children, self.divide), 1, None):
-            if operator == MulIntegerExprOp.DIV:
-                total //= operand
-            elif operator == MulIntegerExprOp.MOD:
-                total %= operand
-            else:
+            operand = int(operand.get_literal_result())
+            if operator == MulIntegerExprOp.MUL:
                 total *= operand
+                continue
+            if operand == 0:
+                raise IllegalParseTree("Division by zero in constant expression", self)
+            # C semantics: truncate towards zero
+            quotient = abs(total) // abs(operand)
+            if (total < 0) != (operand < 0):
+                quotient = -quotient
+            if operator == MulIntegerExprOp.DIV:
+                total = quotient
+            else:
+                total -= quotient * operand
+        return total
 
     def __eq__(self, other):
         if not isinstance(other, MulIntegerExpr): return False
